@@ -63,6 +63,27 @@ CHECKS["C06"] = dict(
     design="7/C06", technique="Coq proof (decoder-after-encoder lemmas, induction over chunk lists and op interleavings) + extracted-model correspondence",
     modelled="forward(), receive(), createPacket (hand transcription); kernel TCP segmentation replaced by net.Pipe hand-over.")
 
+CHECKS["C03"] = dict(
+    text="Theorems: the policy as wired by main() (CheckSession o CheckHost under token auth, CheckHost otherwise) is equivalent to "
+         "the declarative policy (token host equality, address binding, list membership after placeholder substitution with a "
+         "non-empty user; 'signed' and unknown modes allow nothing; only 'any' allows arbitrary hosts); on every run with any "
+         "reachable-address set, every connection goes to the address named by the channel-create packet being processed, in "
+         "the tunnel-authorized phase, and only if the declarative policy allows it; a refused host gets E_PROXY_RAP_ACCESSDENIED, "
+         "the tunnel ends and there is no connection attempt; every near miss is refused. The real security callbacks run inside "
+         "the real Processor with allowed entries on live listeners; the extracted declarative policy is the oracle on every "
+         "policy decision and every accept.",
+    design="7/C03", technique="Coq proof (policy iff declarative spec; dial provenance by induction over runs) + extracted-model correspondence",
+    modelled="CheckHost, CheckSession, DecodeUTF16, JoinHostPort, channelRequest (hand transcription); cookie acceptance is scripted; "
+             "main()'s wiring is replicated by the harness and checked on the real binary by C12.")
+CHECKS["C04"] = dict(
+    text="Theorems: with verification on the wired policy passes only if the token's recorded address equals the presenting "
+         "client's address (string equality) and from any other address no run contains a connection attempt; with verification "
+         "off the decision is independent of both addresses; the client address is the trimmed first X-Forwarded-For element when "
+         "the header is non-empty and the TCP peer host otherwise; the default is on (regenerated constant). The real "
+         "web.EnrichContext and security.CheckSession are run on address forms, header chains and all issuing x presenting pairs.",
+    design="7/C04", technique="Coq proof (binding theorem + no-dial corollary over runs) + extracted-model correspondence",
+    modelled="EnrichContext's client address (ASCII blanks), CheckSession (hand transcription); issuance side covered by C12.")
+
 NOT_YET = {}
 
 
